@@ -11,6 +11,7 @@ from vlib import sh, log
 CANON = re.compile(r"^[0-9a-f]{16}-[0-9a-f]{16}$")
 PFADD_HEX = "7066616464"
 F1_SIG = "local snapshot copy overwrites hard-linked sst files in place"
+H_SIG = "a directory left half written by a crash inside backup / transfer / restore is used"
 K1R_SIG = "engine.rockEngCheckpoint.Save releases the apply loop by a 20ms timer; RocksDB fixes the WAL length only after listing the data directory (>= 100000 files there)"
 K1_SIG = "checkpoint of index i contains writes applied after the apply loop was released"
 
@@ -178,6 +179,20 @@ def oracle(cases, order, impl, skeleton):
             if out != want:
                 fails.append(dict(name="fetch-" + cid, base=cid, signature=F1_SIG,
                                   what="fetching a newer checkpoint from a source that reused sst numbers (%s r1=%s r2=%s): %s" % (c[1], c[2], c[3], out)))
+            nontrivial.add(vlib.case_hash("\t".join(c)))
+        elif kind in ("CB", "CR", "CF"):
+            stats["crash_cases"] = stats.get("crash_cases", 0) + 1
+            good = {"CB": ("killed checkpoint-refused", "killed checkpoint-restores-exactly", "checkpoint-refused-or-exact"),
+                    "CR": ("killed open=restored restart-restores-exactly checkpoint-unchanged",
+                           "killed open=pre-restore restart-restores-exactly checkpoint-unchanged",
+                           "open=complete restart-restores-exactly checkpoint-unchanged"),
+                    "CF": ("restores-exactly",)}[kind]
+            if out not in good:
+                what = {"CB": "a process killed inside a backup (%s, %s) left a checkpoint that is neither refused nor exact: %s",
+                        "CR": "a process killed inside a restore (%s, %s): after the restart the store is not all-old/all-new, "
+                              "or does not end with the checkpoint's content, or the checkpoint changed: %s",
+                        "CF": "a process killed inside a snapshot transfer (%s, %s): the half directory was accepted or the retry restored other content: %s"}[kind]
+                fails.append(dict(name="crash-" + cid, base=cid, signature=H_SIG, what=what % (c[1], c[2], out)))
             nontrivial.add(vlib.case_hash("\t".join(c)))
         elif kind == "I":
             m = re.match(r"^trials=(\d+) later_writes_visible=(\d+)$", out)
@@ -500,9 +515,9 @@ def run(ctx):
         raise SystemExit(2)
 
     if quick:
-        args = "-seed %d -ndir 500 -nplan 200 -ntrace 2 -tracelen 50 -nfetch 0 -ninter 40 -engines pebble,rocksdb,mem -k1 none" % ctx.seed
+        args = "-seed %d -ndir 500 -nplan 200 -ntrace 2 -tracelen 50 -nfetch 0 -ninter 40 -ncrash 1 -engines pebble,rocksdb,mem -k1 none" % ctx.seed
     else:
-        args = "-seed %d -ndir 15000 -nplan 3000 -ntrace 30 -tracelen 80 -nfetch 6 -ninter 600 -junk 100000 -exh -engines pebble,rocksdb,mem -k1 pebble,rocksdb,mem -k1mb 48" % ctx.seed
+        args = "-seed %d -ndir 15000 -nplan 3000 -ntrace 30 -tracelen 80 -nfetch 6 -ninter 600 -ncrash 25 -junk 100000 -exh -engines pebble,rocksdb,mem -k1 pebble,rocksdb,mem -k1mb 48" % ctx.seed
     runs = []
     corpus = sorted(glob.glob(os.path.join(vlib.VERIF, "corpus", "C14", "*.tsv")))
     if ctx.replay:
@@ -521,7 +536,7 @@ def run(ctx):
             # skiplist, is not run: its iterator is no snapshot, so its checkpoint contains writes applied after
             # the release (99 of 100 interleaved trials); it cannot be selected outside the package tests.
             for mt in ("btree",):
-                runs.append(("mem-" + mt, "-seed %d -ndir 0 -nplan 60 -ntrace 8 -tracelen 70 -ninter 200 -engines mem -memtype %s -k1 mem -k1mb 16" % (ctx.seed + 7, mt), None))
+                runs.append(("mem-" + mt, "-seed %d -ndir 0 -nplan 60 -ntrace 8 -tracelen 70 -ninter 200 -ncrash 0 -engines mem -memtype %s -k1 mem -k1mb 16" % (ctx.seed + 7, mt), None))
 
     all_mism, all_fail, total = [], [], 0
     hist_all, stats_all, distinct, samples = {}, {}, set(), []
@@ -551,13 +566,13 @@ def run(ctx):
             byk = {}
             for cid in order:
                 byk.setdefault(cases[cid][0], cid)
-            for kd in ("P", "F", "TO", "L", "E", "I", "K"):
+            for kd in ("P", "F", "TO", "L", "E", "I", "CB", "CR", "CF", "K"):
                 if kd in byk:
                     cid = byk[kd]
                     samples.append(dict(case=[x[:160] for x in cases[cid]], impl=(impl.get(cid) or "")[:300]))
 
     def search():
-        d2, err = run_impl(ctx, "search", "-seed %d -ndir 3000 -nplan 800 -ntrace 6 -tracelen 60 -nfetch 4 -ninter 300 -engines pebble,rocksdb,mem -k1 pebble,rocksdb -k1mb 48" % (ctx.seed + 1000003))
+        d2, err = run_impl(ctx, "search", "-seed %d -ndir 3000 -nplan 800 -ntrace 6 -tracelen 60 -nfetch 4 -ninter 300 -ncrash 10 -engines pebble,rocksdb,mem -k1 pebble,rocksdb -k1mb 48" % (ctx.seed + 1000003))
         if d2 is None:
             return []
         return evaluate(d2)[4]
@@ -580,6 +595,8 @@ def run(ctx):
              "where the purge really removes; fetch of a checkpoint by the real kvStoreSM.PrepareSnapshot from the peer store); "
              "I: the production apply-loop schedule around a snapshot, many trials per engine on one store: apply, dump, GetSnapshot (Backup+WaitReady), "
              "apply further entries at once while the copy runs, GetData, RestoreFromSnapshot, dump; "
+             "CB/CR/CF: a child process is killed (SIGKILL, with its cp child) inside a backup, a restore, a snapshot transfer — at each named crash point "
+             "of rockredis.go and at random moments — and the store is restarted the way node/raft.go does; "
              "E: two checkpoints fetched and restored, the source falls back to its first checkpoint and reuses sst numbers with other content, third fetch; K: 32MB unflushed memtable + INCR traffic racing with the checkpoint copy. "
              "Non-trivial = a purge that removes, a plan with an sst present on both sides, a restore that really rolls the content back, "
              "any N/C/L/K; distinct by hash of the case.",
